@@ -3,11 +3,18 @@ import itertools
 import z3
 from . import xr
 
-_ctr = itertools.count()
+_ctr = [0]
+
+
+def reset_names():
+    """names are unique per contract; resetting makes an obligation's SMT text (and so the solver's behaviour) independent of
+    which other contracts were processed before it"""
+    _ctr[0] = 0
 
 
 def fresh_name(base):
-    return "%s!%d" % (base, next(_ctr))
+    _ctr[0] += 1
+    return "%s!%d" % (base, _ctr[0])
 
 
 class V:
